@@ -245,7 +245,7 @@ macro_rules! cmsg_nxthdr {
     ($mhdr: expr, $cmsg: expr) => {
         if ((*$cmsg).cmsg_len) < core::mem::size_of::<CmsgHdr>()
             || __cmsg_len!($cmsg) + core::mem::size_of::<CmsgHdr>()
-                >= __mhdr_end!($mhdr) - core::ptr::addr_of!($cmsg) as usize
+                >= __mhdr_end!($mhdr) - $cmsg as usize
         {
             core::ptr::null()
         } else {
@@ -281,7 +281,7 @@ macro_rules! __cmsg_next {
 #[cfg(feature = "alloc")]
 macro_rules! __mhdr_end {
     ($mhdr: expr) => {
-        core::ptr::addr_of!($mhdr.msg_control) as usize + $mhdr.msg_controllen
+        $mhdr.msg_control as usize + $mhdr.msg_controllen
     };
 }
 
